@@ -17,6 +17,8 @@
 // (block.getDataArray / array.getDimension(i)) at odd positions.
 // Reference model: the ordered list of descriptors (kind + attributes) plus the array's label, unit and (rank 1 numeric)
 // data; an alias descriptor has no attributes of its own: its ticks / label / unit ARE the array's data / label / unit.
+// Between the steps every attribute is read through the kept handles (so that a handle that caches what it read is exposed by
+// a later write through another handle).
 // After the LAST step of every sequence (every prefix is a sequence of its own) the whole state is read through five access
 // paths and compared with the model: (1) the handles kept alive across the steps, (2) array.getDimension(i), (3)
 // array.dimensions(), (4) a freshly fetched array handle, (5) after close + reopen ReadOnly.  Read: dimensionCount,
@@ -464,7 +466,7 @@ static const char *dtn(DimensionType t) {
 }
 
 // all observables of descriptor number pos (1-based) through handle h; kc: kind class expected by the model (signatures)
-static void obs_dim(Obs &o, int pos, const H &h, const std::string &kc) {
+static void obs_dim(Obs &o, int pos, const H &h, const std::string &kc, bool shallow = false) {
     const std::string p = "dim" + std::to_string(pos) + ".";
     if (!h.d) { o.push_back(Entry{p + "kind", "none", kc + " kind"}); return; }
     DimensionType t = DimensionType::Set;
@@ -473,6 +475,7 @@ static void obs_dim(Obs &o, int pos, const H &h, const std::string &kc) {
     g_getters++;
     if (!exc.empty()) { o.push_back(Entry{p + "kind", exc, kc + " kind"}); return; }
     o.push_back(Entry{p + "kind", dtn(t), kc + " kind"});
+    if (shallow) { put(o, p + "index", kc + " index", [&] { return std::to_string(h.d.index()); }); return; }
     switch (t) {
     case DimensionType::Set: {
         const SetDimension &s = h.set;
@@ -583,7 +586,7 @@ static Obs expected(const Model &m, const std::string &frame_ref, bool with_data
 }
 
 // observation through an array handle; kept: the dimension handles kept alive (else fetched by getDimension / dimensions())
-static Obs observe(const DataArray &a, const Model &m, const std::vector<H> *kept, bool use_list, bool with_data) {
+static Obs observe(const DataArray &a, const Model &m, const std::vector<H> *kept, bool use_list, bool with_data, bool shallow = false) {
     Obs o;
     ndsize_t n = 0;
     put(o, "dimensionCount", "dimensionCount", [&] { n = a.dimensionCount(); return std::to_string(n); });
@@ -596,21 +599,22 @@ static Obs observe(const DataArray &a, const Model &m, const std::vector<H> *kep
     if (!kept && upto < m.dims.size()) upto = m.dims.size();
     for (size_t i = 0; i < upto; i++) {
         const std::string kc = i < m.dims.size() ? kind_class(m.dims[i]) : "surplus";
-        if (kept) obs_dim(o, (int)i + 1, (*kept)[i], kc);
+        if (kept) obs_dim(o, (int)i + 1, (*kept)[i], kc, shallow);
         else {
             H h; std::string what;
             std::string exc = vf::guarded([&] { h = use_list ? (i < list.size() ? typed(list[i], true) : H()) : typed(a.getDimension(i + 1), false); }, &what);
             g_getters++;
             if (!exc.empty()) o.push_back(Entry{"dim" + std::to_string(i + 1) + ".kind", exc, kc + " kind"});
-            else obs_dim(o, (int)i + 1, h, kc);
+            else obs_dim(o, (int)i + 1, h, kc, shallow);
         }
     }
     const bool al = m.has_alias();
     put(o, "array.label", al ? "label of the aliased array" : "array label", [&] { return ostr(a.label()); });
     put(o, "array.unit", al ? "unit of the aliased array" : "array unit", [&] { return ostr(a.unit()); });
     if (m.c->track) {
-        put(o, "array.extent", al ? "extent of the aliased array" : "array extent", [&] { NDSize e = a.dataExtent(); std::string s = "["; for (size_t i = 0; i < e.size(); i++) s += (i ? "," : "") + std::to_string(e[i]); return s + "]"; });
-        if (with_data) put(o, "array.data", al ? "data of the aliased array" : "array data", [&] { std::vector<double> v; if (a.dataExtent().nelms() > 0) a.getData(v); return vf::jvecd(v); });
+        ndsize_t nel = 0;
+        put(o, "array.extent", al ? "extent of the aliased array" : "array extent", [&] { NDSize e = a.dataExtent(); nel = e.nelms(); std::string s = "["; for (size_t i = 0; i < e.size(); i++) s += (i ? "," : "") + std::to_string(e[i]); return s + "]"; });
+        if (with_data) put(o, "array.data", al ? "data of the aliased array" : "array data", [&] { std::vector<double> v; if (nel > 0) a.getData(v); return vf::jvecd(v); });
     }
     return o;
 }
@@ -643,32 +647,36 @@ struct Runner {
     void cnt(const char *name, long n = 1) { if (!quiet) vf::count(name, n); }
     void dst(const char *bucket, const std::string &v) { if (!quiet) vf::distinct(bucket, v); }
 
+    struct Path { std::string name; Obs obs; bool partial; };     // partial: reads only some observables
+
     // compares the access paths with the model; reports the first deviating observable
     // returns false if something deviates
-    bool compare(const std::vector<std::pair<std::string, Obs>> &paths, const Obs &E, const std::string &op, const std::string &icls, bool invariants_only) {
+    bool compare(const std::vector<Path> &paths, const Obs &E, const std::string &op, const std::string &icls, bool invariants_only) {
         std::map<std::string, std::pair<std::string, std::string>> em;       // key -> (value, class)
         for (auto &e : E) em[e.key] = std::make_pair(e.val, e.cls);
         // keys in the order of the expectation, then surplus keys of the paths
         std::vector<std::pair<std::string, std::string>> keys;               // (key, class)
         for (auto &e : E) keys.push_back(std::make_pair(e.key, e.cls));
         std::set<std::string> seen; for (auto &k : keys) seen.insert(k.first);
-        for (auto &p : paths) for (auto &e : p.second) if (seen.insert(e.key).second) keys.push_back(std::make_pair(e.key, e.cls));
+        for (auto &p : paths) for (auto &e : p.obs) if (seen.insert(e.key).second) keys.push_back(std::make_pair(e.key, e.cls));
         for (auto &k : keys) {
             const bool inv = k.first.find("ascending") != std::string::npos || k.first.find("interval>0") != std::string::npos;
             if (invariants_only && !inv) continue;
             const std::string want = inv ? "yes" : em.count(k.first) ? em[k.first].first : "<absent>";
             std::vector<std::string> bad, badval;
+            size_t readers = 0;
             for (auto &p : paths) {
                 std::string got = "<absent>";
-                for (auto &e : p.second) if (e.key == k.first) { got = e.val; break; }
-                if (invariants_only && got == "<absent>") continue;
-                if (got != want) { bad.push_back(p.first); badval.push_back(got); }
+                for (auto &e : p.obs) if (e.key == k.first) { got = e.val; break; }
+                if (got == "<absent>" && (invariants_only || p.partial || k.first == "array.data")) continue;
+                readers++;
+                if (got != want) { bad.push_back(p.name); badval.push_back(got); }
             }
             if (bad.empty()) continue;
             bool same = true; for (auto &v : badval) if (v != badval[0]) same = false;
             const std::string dev = deviation(k.first, badval[0], want);
             std::string sig, what;
-            if (bad.size() == paths.size() && same) {
+            if (bad.size() == readers && same) {
                 sig = "C13|" + op + "|" + icls + "|" + k.second + (inv ? "" : " reads back as the history says") + "|" + dev;
                 what = k.first + " = " + badval[0] + " through every access path, expected " + want;
             } else {
@@ -703,7 +711,8 @@ struct Runner {
         std::vector<H> kept;
         bool extend = true, fresh_session = true;
         std::string op = "create", icls = "-";
-        bool inv_only = false;
+        bool inv_only = false, threw = false;
+        Obs after_reject;
 
         for (size_t si = 0; si < steps.size() && extend; si++) {
             const Letter &l = steps[si];
@@ -803,7 +812,9 @@ struct Runner {
                 if (rep) {
                     cnt("rejections");
                     // a rejected call changes nothing (the model is not touched; what differs is reported against the call)
-                    Obs after = observe(da, m, nullptr, false, true);
+                    threw = true;
+                    after_reject = observe(da, m, nullptr, false, true);
+                    const Obs &after = after_reject;
                     if (render(after) != render(before)) {
                         std::string k, cls, g, w;
                         for (size_t i = 0; i < std::max(after.size(), before.size()); i++) {
@@ -828,6 +839,9 @@ struct Runner {
                     m.apply(l);
                     if (appended) kept.push_back(newh);
                     if (l.op == DEL_DIMS) kept.clear();
+                    // between the steps everything is read through the kept handles (values were checked by the prefix's own trace):
+                    // a handle that remembers what it has read must not serve it after a later write through another handle
+                    if (!lastst && kept.size() == m.dims.size()) { const long g0 = g_getters; observe(da, m, &kept, false, true); if (report) cnt("getter_calls", g_getters - g0); }
                 }
             }
         }
@@ -836,33 +850,36 @@ struct Runner {
         if (report && !steps.empty()) {
             cnt("invariant_checks");
             const long g0 = g_getters;
-            std::vector<std::pair<std::string, Obs>> paths;
+            std::vector<Path> paths;
             Obs E = expected(m, frame_ref, true);
+            const uint64_t rot = vf::fnv(trace);
             if (inv_only) {
-                paths.push_back(std::make_pair("getDimension", observe(da, m, nullptr, false, true)));
+                paths.push_back(Path{"getDimension", observe(da, m, nullptr, false, false), false});
+            } else if (threw) {
+                // the state is the one of the prefix (checked through every path by the prefix's own trace): what the kept handles and
+                // fresh ones show now must still be that state
+                if (kept.size() == m.dims.size()) paths.push_back(Path{"kept handles", observe(da, m, &kept, false, true), false});
+                paths.push_back(Path{"getDimension", after_reject, false});
             } else {
-                if (kept.size() == m.dims.size()) paths.push_back(std::make_pair("kept handles", observe(da, m, &kept, false, true)));
-                paths.push_back(std::make_pair("getDimension", observe(da, m, nullptr, false, true)));
-                paths.push_back(std::make_pair("dimensions()", observe(da, m, nullptr, true, true)));
+                // the two ways of enumerating the descriptors take turns in reading every attribute (the other reads kind and index);
+                // a second array handle reads every attribute on every other trace, the array's own attributes and data always
+                const bool list_full = rot % 2 == 1;
+                if (kept.size() == m.dims.size()) paths.push_back(Path{"kept handles", observe(da, m, &kept, false, true), false});
+                paths.push_back(Path{"getDimension", observe(da, m, nullptr, false, false, list_full), list_full});
+                paths.push_back(Path{"dimensions()", observe(da, m, nullptr, true, false, !list_full), !list_full});
                 DataArray a2; std::string what;
                 std::string exc = vf::guarded([&] { a2 = b.getDataArray("arr"); }, &what);
                 if (!exc.empty() || !a2) viol("C13|Block::getDataArray|after " + op + "|array is found|" + (exc.empty() ? "none" : exc), C.label + ": " + trace);
-                else paths.push_back(std::make_pair("fresh array handle", observe(a2, m, nullptr, false, true)));
-            }
-            ok = compare(paths, E, op, icls, inv_only);
-            if (ok && !inv_only) {
+                else { const bool sh = (rot / 2) % 2 == 1; paths.push_back(Path{"fresh array handle", observe(a2, m, nullptr, false, true, sh), sh}); }
+                a2 = DataArray();
                 // after close + reopen ReadOnly
                 kept.clear(); da = DataArray(); fr = DataFrame(); b = Block();
                 f.close();
-                std::string what;
-                std::string exc = vf::guarded([&] { f = File::open(path, FileMode::ReadOnly); b = f.getBlock("blk"); da = b.getDataArray("arr"); }, &what);
+                exc = vf::guarded([&] { f = File::open(path, FileMode::ReadOnly); b = f.getBlock("blk"); da = b.getDataArray("arr"); }, &what);
                 if (!exc.empty() || !da) { viol("C13|File::open(ReadOnly)|after " + op + "|file reopens|" + (exc.empty() ? "array none" : exc), C.label + ": " + trace + ": " + what); ok = false; }
-                else {
-                    std::vector<std::pair<std::string, Obs>> p2;
-                    p2.push_back(std::make_pair("reopened ReadOnly", observe(da, m, nullptr, false, true)));
-                    ok = compare(p2, E, op, icls, false);
-                }
+                else paths.push_back(Path{"reopened ReadOnly", observe(da, m, nullptr, false, true), false});
             }
+            if (!compare(paths, E, op, icls, inv_only)) ok = false;
             cnt("getter_calls", g_getters - g0);
             dst("states", m.state_key(fresh_session));
         }
@@ -900,7 +917,7 @@ int main(int argc, char **argv) {
             for (size_t i = 0; i + 1 < seq.size(); i++) { if (m.classify(seq[i]) == C_OFF) return false; m.apply(seq[i]); }
             return m.classify(seq.back()) != C_OFF;
         };
-        const bool split = dmax >= 4;
+        const bool split = dmax >= 4 || alpha.size() >= 40;      // big trees: one case per pair of leading steps
         for (size_t first = 0; first < alpha.size(); first++) {
             std::vector<long> seconds = {-1};
             if (split && m0.classify(alpha[first]) == C_ACCEPT) for (size_t k = 0; k < alpha.size(); k++) seconds.push_back((long)k);
